@@ -62,6 +62,16 @@ struct UnitToml {
     /// ractor/src/macros.rs (checked against the file on every run: a different definition => undecided)
     #[serde(default)]
     expand_cast_macro: bool,
+    /// R29: `crate::concurrency::select! { p1 = e1 => b1 .. }` is projected to ONE poll round of its arms in their textual order:
+    /// `match vx_select_biased_N(e1, .., eN) { VxSelN::A0(p1) => b1, .. }` when `macro_rules! select` in
+    /// ractor/src/concurrency/tokio_primitives.rs is the wrapper that inserts `biased;` (checked on every run), and
+    /// `vx_select_fair_N` (a stand-in that promises no order) when the wrapper no longer inserts it
+    #[serde(default)]
+    expand_select_macro: bool,
+    /// R31: a path to a tuple-variant constructor passed as a function value (`.map(ActorPortMessage::Signal)`) is eta-expanded to
+    /// the closure `|vx_x| ActorPortMessage::Signal(vx_x)` (listed method names only)
+    #[serde(default)]
+    eta_expand_in: Vec<String>,
     /// R25: inside closure bodies a call of method X is renamed to the mapped name: a stand-in WITHOUT ghost parameters (closures
     /// cannot carry the tracked ghost heap), whose result is therefore unconstrained
     #[serde(default)]
@@ -157,6 +167,11 @@ struct ItemSpec {
     /// "when the message is X then ...".
     #[serde(default)]
     keep_arms: Vec<String>,
+    /// R30: an `async move { .. }` block of method `of` that leaves through `return`/`?` (so it cannot be evaluated in place) is
+    /// outlined into a sibling method `name` with the declared parameter list and return type (its body is the block's text,
+    /// verbatim); the block is replaced by the call `Self::name(args)`
+    #[serde(default)]
+    outline_async: Vec<OutlineSpec>,
     /// extract this item only when the feature is active
     #[serde(default)]
     only_feature: Option<String>,
@@ -167,6 +182,18 @@ struct ItemSpec {
     /// drop generic params by name from impl/fn (with their bounds)
     #[serde(default)]
     drop_generics: Vec<String>,
+}
+
+#[derive(Deserialize, Debug, Clone, Default)]
+struct OutlineSpec {
+    of: String,
+    name: String,
+    /// generic parameters of the outlined method, e.g. `<'a>`
+    #[serde(default)]
+    generics: String,
+    params: String,
+    ret: String,
+    args: String,
 }
 
 #[derive(Serialize, Debug, Clone, Default)]
@@ -335,6 +362,9 @@ struct Rewriter<'a> {
     chainmap: Vec<(syn::Expr, syn::Expr)>,
     closure_method_map: BTreeMap<String, String>,
     expand_cast_macro: bool,
+    /// R29: None = rule off, Some(true) = the wrapper inserts `biased;`, Some(false) = it does not
+    select_biased: Option<bool>,
+    eta_expand_in: BTreeSet<String>,
     escaping_async_blocks_allowed: usize,
     /// R27: sibling methods of the impl under extraction that are neither extracted, nor stand-ins of the prelude: inlined at call sites
     inline_table: BTreeMap<String, syn::ImplItemFn>,
@@ -477,6 +507,9 @@ fn match_pat(pat: &syn::Expr, e: &syn::Expr, binds: &mut BTreeMap<String, syn::E
         (syn::Expr::Paren(p), _) => match_pat(&p.expr, e, binds),
         (_, syn::Expr::Paren(m)) => match_pat(pat, &m.expr, binds),
         (syn::Expr::Reference(p), syn::Expr::Reference(m)) => p.mutability.is_some() == m.mutability.is_some() && match_pat(&p.expr, &m.expr, binds),
+        (syn::Expr::Call(p), syn::Expr::Call(m)) => p.args.len() == m.args.len() && match_pat(&p.func, &m.func, binds)
+            && p.args.iter().zip(m.args.iter()).all(|(a, b)| match_pat(a, b, binds)),
+        (syn::Expr::Path(p), syn::Expr::Path(m)) => norm_tokens(&p.to_token_stream()) == norm_tokens(&m.to_token_stream()),
         _ => false,
     }
 }
@@ -752,6 +785,13 @@ impl<'a> VisitMut for Rewriter<'a> {
                 self.rules.insert("R11".into());
                 continue;
             }
+            // R29: a statement-position `select! { .. }` is an expression
+            let st = match st {
+                syn::Stmt::Macro(m) if self.select_biased.is_some() && m.mac.path.segments.last().map(|x| x.ident == "select").unwrap_or(false) => {
+                    syn::Stmt::Expr(syn::Expr::Macro(syn::ExprMacro { attrs: m.attrs, mac: m.mac }), m.semi_token)
+                }
+                other => other,
+            };
             // R2 on statement-level logging macros
             if let syn::Stmt::Macro(m) = &st {
                 let last = m.mac.path.segments.last().map(|s| s.ident.to_string()).unwrap_or_default();
@@ -1194,6 +1234,19 @@ impl<'a> VisitMut for Rewriter<'a> {
                 }
             }
         }
+        // R31: eta-expansion of constructor paths passed as function values
+        if let syn::Expr::MethodCall(mc) = e {
+            if self.eta_expand_in.contains(&mc.method.to_string()) && mc.args.len() == 1 {
+                if let syn::Expr::Path(p) = &mc.args[0] {
+                    let last_upper = p.path.segments.last().map(|x| x.ident.to_string().chars().next().map(|c| c.is_uppercase()).unwrap_or(false)).unwrap_or(false);
+                    if last_upper && p.path.segments.len() >= 2 {
+                        let path = p.clone();
+                        mc.args[0] = syn::parse_quote!(|vx_x| #path(vx_x));
+                        self.rules.insert("R31".into());
+                    }
+                }
+            }
+        }
         // R22: chainmap: pattern expressions with metavariables `__`, `__1`, .. (any expression) over closure-free method chains
         if !self.chainmap.is_empty() {
             for (pat, templ) in self.chainmap.clone() {
@@ -1204,6 +1257,48 @@ impl<'a> VisitMut for Rewriter<'a> {
                     *e = out;
                     self.rules.insert("R22".into());
                     break;
+                }
+            }
+        }
+        // R29: select!
+        if let Some(biased) = self.select_biased {
+            if let syn::Expr::Macro(m) = e {
+                if m.mac.path.segments.last().map(|x| x.ident == "select").unwrap_or(false) {
+                    struct Arm { pat: syn::Pat, fut: syn::Expr, body: syn::Expr }
+                    struct Arms(Vec<Arm>);
+                    impl syn::parse::Parse for Arms {
+                        fn parse(input: syn::parse::ParseStream) -> syn::Result<Self> {
+                            let mut v = vec![];
+                            while !input.is_empty() {
+                                let pat = syn::Pat::parse_single(input)?;
+                                let _: syn::Token![=] = input.parse()?;
+                                let fut: syn::Expr = input.parse()?;
+                                let _: syn::Token![=>] = input.parse()?;
+                                let body: syn::Expr = input.parse()?;
+                                if input.peek(syn::Token![,]) { let _: syn::Token![,] = input.parse()?; }
+                                v.push(Arm { pat, fut, body });
+                            }
+                            Ok(Arms(v))
+                        }
+                    }
+                    let arms = syn::parse2::<Arms>(m.mac.tokens.clone()).unwrap_or_else(|er| die(format!("R29: cannot read the arms of select!: {}", er))).0;
+                    let n = arms.len();
+                    let f = syn::Ident::new(&format!("vx_select_{}_{}", if biased { "biased" } else { "fair" }, n), Span::call_site());
+                    let ty = syn::Ident::new(&format!("VxSel{}", n), Span::call_site());
+                    let mut futs: Vec<syn::Expr> = vec![];
+                    let mut marms: Vec<syn::Arm> = vec![];
+                    for (i, a) in arms.into_iter().enumerate() {
+                        let mut fut = a.fut; let mut body = a.body;
+                        self.visit_expr_mut(&mut fut);
+                        self.visit_expr_mut(&mut body);
+                        let v = syn::Ident::new(&format!("A{}", i), Span::call_site());
+                        let pat = a.pat;
+                        futs.push(fut);
+                        marms.push(syn::parse_quote!(#ty::#v(#pat) => #body,));
+                    }
+                    *e = syn::parse_quote!(match #f(#(#futs),*) { #(#marms)* });
+                    self.rules.insert("R29".into());
+                    return;
                 }
             }
         }
@@ -1330,6 +1425,7 @@ struct Annotator<'a> {
     closure_counter: usize,
     /// anchor of the closure about to be visited: (callee, k) = k-th closure passed to a call of callee
     cur_anchor: Option<(String, usize)>,
+    cur_arg_pos: usize,
     call_closure_counter: BTreeMap<String, usize>,
     uncontracted_closures: usize,
     derived_closures: Vec<(String, String)>,
@@ -1426,7 +1522,7 @@ impl<'a> VisitMut for Annotator<'a> {
             self.rules.insert("R5".into());
         } else {
             // R28: derived postcondition for a pure-expression closure passed to a listed callee
-            let ty = anchor.as_ref().and_then(|(callee, _)| self.contract.and_then(|ct| ct.pure_closures.get(callee)));
+            let ty = anchor.as_ref().and_then(|(callee, _)| self.contract.and_then(|ct| ct.pure_closures.get(&format!("{}.{}", callee, self.cur_arg_pos)).or_else(|| ct.pure_closures.get(callee))));
             match ty {
                 Some(ty) if is_pure_spec_expr(&c.body) => {
                     let idn = syn::Ident::new(&format!("vx_pcl_{}_{}", self.fn_idx, self.derived_closures.len()), Span::call_site());
@@ -1443,10 +1539,11 @@ impl<'a> VisitMut for Annotator<'a> {
     fn visit_expr_method_call_mut(&mut self, m: &mut syn::ExprMethodCall) {
         self.visit_expr_mut(&mut m.receiver);
         let name = m.method.to_string();
-        for a in m.args.iter_mut() {
+        for (pos, a) in m.args.iter_mut().enumerate() {
             if matches!(a, syn::Expr::Closure(_)) {
                 let k = self.call_closure_counter.entry(name.clone()).or_insert(0);
                 self.cur_anchor = Some((name.clone(), *k));
+                self.cur_arg_pos = pos;
                 *k += 1;
             }
             self.visit_expr_mut(a);
@@ -1457,10 +1554,11 @@ impl<'a> VisitMut for Annotator<'a> {
     fn visit_expr_call_mut(&mut self, m: &mut syn::ExprCall) {
         self.visit_expr_mut(&mut m.func);
         let name = match &*m.func { syn::Expr::Path(p) => p.path.segments.last().map(|s| s.ident.to_string()).unwrap_or_default(), _ => String::new() };
-        for a in m.args.iter_mut() {
+        for (pos, a) in m.args.iter_mut().enumerate() {
             if matches!(a, syn::Expr::Closure(_)) {
                 let k = self.call_closure_counter.entry(name.clone()).or_insert(0);
                 self.cur_anchor = Some((name.clone(), *k));
+                self.cur_arg_pos = pos;
                 *k += 1;
             }
             self.visit_expr_mut(a);
@@ -1589,7 +1687,8 @@ fn is_pure_spec_expr(e: &syn::Expr) -> bool {
         Binary(b) => matches!(b.op, syn::BinOp::Eq(_) | syn::BinOp::Ne(_) | syn::BinOp::Lt(_) | syn::BinOp::Le(_) | syn::BinOp::Gt(_) | syn::BinOp::Ge(_) | syn::BinOp::And(_) | syn::BinOp::Or(_))
             && is_pure_spec_expr(&b.left) && is_pure_spec_expr(&b.right),
         Tuple(t) => t.elems.iter().all(is_pure_spec_expr),
-        Call(c) => matches!(&*c.func, syn::Expr::Path(p) if p.path.is_ident("Some") || p.path.is_ident("Ok") || p.path.is_ident("Err")) && c.args.iter().all(is_pure_spec_expr),
+        // constructors: `Some(..)`, `Ok(..)`, `Err(..)`, `Type::Variant(..)`
+        Call(c) => matches!(&*c.func, syn::Expr::Path(p) if p.path.segments.last().map(|x| x.ident.to_string().chars().next().map(|ch| ch.is_uppercase()).unwrap_or(false)).unwrap_or(false)) && c.args.iter().all(is_pure_spec_expr),
         _ => false,
     }
 }
@@ -1684,6 +1783,7 @@ fn process_fn_common(
         loop_counter: 0,
         closure_counter: 0,
         cur_anchor: None,
+        cur_arg_pos: 0,
         call_closure_counter: BTreeMap::new(),
         uncontracted_closures: 0,
         derived_closures: vec![],
@@ -1817,6 +1917,25 @@ fn main() {
     )
     .unwrap_or_else(|e| die(format!("unit.toml: {}", e)));
     if let Some(f) = features_override { unit_toml.features = f; }
+    let mut select_biased: Option<bool> = None;
+    let mut select_macro_hash: Option<String> = None;
+    if unit_toml.expand_select_macro {
+        let mpath = repo.join("ractor/src/concurrency/tokio_primitives.rs");
+        let src = std::fs::read_to_string(&mpath).unwrap_or_else(|e| die(format!("R29: {}: {}", mpath.display(), e)));
+        let f = syn::parse_file(&src).unwrap_or_else(|e| die(format!("R29: cannot parse tokio_primitives.rs: {}", e)));
+        for it in &f.items {
+            if let syn::Item::Macro(m) = it {
+                if m.ident.as_ref().map(|i| i == "select").unwrap_or(false) {
+                    let body = norm_tokens(&m.mac.tokens);
+                    select_macro_hash = Some(sha(&body));
+                    if body == "($($tokens:tt)*)=>{{tokio::select!{biased;$($tokens)*}}}" { select_biased = Some(true); }
+                    else if body == "($($tokens:tt)*)=>{{tokio::select!{$($tokens)*}}}" { select_biased = Some(false); }
+                    else { die(format!("R29: `macro_rules! select` is neither the biased nor the plain tokio::select! wrapper ({})", body)); }
+                }
+            }
+        }
+        if select_biased.is_none() { die("lost anchor: `macro_rules! select` not found in ractor/src/concurrency/tokio_primitives.rs"); }
+    }
     if unit_toml.expand_cast_macro {
         let mpath = repo.join("ractor/src/macros.rs");
         let src = std::fs::read_to_string(&mpath).unwrap_or_else(|e| die(format!("R26: {}: {}", mpath.display(), e)));
@@ -1897,6 +2016,10 @@ fn main() {
 
     let mut files: HashMap<String, syn::File> = HashMap::new();
     let mut gen = Gen { out: String::new(), fns: vec![], items: vec![], shape_checks: vec![] };
+    if let Some(h) = &select_macro_hash {
+        // R29 reads this definition: it is part of what the unit was cut from
+        gen.items.push(ItemOut { path: "macro_rules select".into(), repo_file: "ractor/src/concurrency/tokio_primitives.rs".into(), token_hash: h.clone(), rules: vec!["R29".into()] });
+    }
     gen.out.push_str(&prelude);
     if !gen.out.ends_with('\n') {
         gen.out.push('\n');
@@ -1941,10 +2064,13 @@ fn main() {
             expand_option_combinators: unit_toml.expand_option_combinators,
             closure_method_map: unit_toml.closure_method_map.clone(),
             expand_cast_macro: unit_toml.expand_cast_macro,
+            select_biased,
+            eta_expand_in: unit_toml.eta_expand_in.iter().cloned().collect(),
             escaping_async_blocks_allowed: 0,
             inline_table: BTreeMap::new(),
             inline_depth: 0,
-            chainmap: unit_toml.chainmap.iter().map(|(k, v)| (parse_chain(k), parse_chain(v))).collect(),
+            // the most specific (longest) pattern is tried first
+            chainmap: { let mut v: Vec<(&String, &String)> = unit_toml.chainmap.iter().collect(); v.sort_by(|a, b| b.0.len().cmp(&a.0.len()).then(a.0.cmp(b.0))); v.into_iter().map(|(k, v)| (parse_chain(k), parse_chain(v))).collect() },
         };
         let extra_attrs: Vec<syn::Attribute> = spec
             .extra_attrs
@@ -2162,6 +2288,51 @@ fn main() {
                     }
                     if selected.is_empty() { continue; }
                     im.items = selected;
+                    // R30: outline escaping async blocks
+                    for os in spec.outline_async.iter() {
+                        let mut new_fn: Option<syn::ImplItemFn> = None;
+                        for ii in im.items.iter_mut() {
+                            if let syn::ImplItem::Fn(m) = ii {
+                                if m.sig.ident != os.of { continue; }
+                                struct Find<'a> { os: &'a OutlineSpec, found: Option<syn::Block> }
+                                impl<'a> VisitMut for Find<'a> {
+                                    fn visit_expr_mut(&mut self, e: &mut syn::Expr) {
+                                        if self.found.is_none() {
+                                            if let syn::Expr::Async(a) = e {
+                                                struct Esc(bool);
+                                                impl<'ast> syn::visit::Visit<'ast> for Esc {
+                                                    fn visit_expr_return(&mut self, _: &'ast syn::ExprReturn) { self.0 = true; }
+                                                    fn visit_expr_try(&mut self, _: &'ast syn::ExprTry) { self.0 = true; }
+                                                    fn visit_expr_closure(&mut self, _: &'ast syn::ExprClosure) {}
+                                                    fn visit_expr_async(&mut self, _: &'ast syn::ExprAsync) {}
+                                                }
+                                                let mut esc = Esc(false);
+                                                syn::visit::Visit::visit_block(&mut esc, &a.block);
+                                                if esc.0 {
+                                                    self.found = Some(a.block.clone());
+                                                    let name = syn::Ident::new(&self.os.name, Span::call_site());
+                                                    let args: TokenStream = self.os.args.parse().unwrap_or_else(|er| die(format!("R30: args: {}", er)));
+                                                    *e = syn::parse_quote!(Self::#name(#args));
+                                                    return;
+                                                }
+                                            }
+                                        }
+                                        visit_mut::visit_expr_mut(self, e);
+                                    }
+                                }
+                                let mut fd = Find { os, found: None };
+                                fd.visit_block_mut(&mut m.block);
+                                let body = fd.found.unwrap_or_else(|| die(format!("lost anchor: R30: no escaping async block in `{}`", os.of)));
+                                let name = syn::Ident::new(&os.name, Span::call_site());
+                                let params: TokenStream = os.params.parse().unwrap_or_else(|er| die(format!("R30: params: {}", er)));
+                                let ret: TokenStream = os.ret.parse().unwrap_or_else(|er| die(format!("R30: ret: {}", er)));
+                                let generics: TokenStream = os.generics.parse().unwrap_or_else(|er| die(format!("R30: generics: {}", er)));
+                                new_fn = Some(syn::parse_quote!(async fn #name #generics (#params) -> #ret #body));
+                                rw.rules.insert("R30".into());
+                            }
+                        }
+                        match new_fn { Some(f) => im.items.push(syn::ImplItem::Fn(f)), None => die(format!("lost anchor: R30: method `{}` not found", os.of)) }
+                    }
                     check_no_unsafe(&im.to_token_stream(), &spec.path);
                     // hashes before rewriting
                     let mut hashes: Vec<(String, usize, String)> = vec![];
